@@ -11,7 +11,7 @@ from vf.gen.build import build, used_optic
 from vf.gen.edit import edit_strategy, apply_edit
 
 LAUNCH = GL.Profile(max_surfs=6, shapes=['standard'], allow_vignetting=True, keep_edges=True, rho_min=1.5,
-                    steep_prob=0.1, max_field_deg=25.0, negative_fields=True)
+                    steep_prob=0.1, max_field_deg=25.0, negative_fields=True, unsorted_fields=True)
 
 DISTS = ['line_x', 'line_y', 'positive_line_x', 'positive_line_y', 'random', 'uniform', 'hexapolar', 'cross', 'ring',
          'gq', 'gq_sym']
